@@ -60,6 +60,16 @@ def run(ctx, rep):
         r_ = SL.Lasso(alpha=a, fit_intercept=fi, positive=pos, tol=1e-14, max_iter=100000).fit(X, y)
         f1, f2 = lasso_obj(e.coef_, e.intercept_), lasso_obj(r_.coef_, r_.intercept_)
         obj_gap(rep, "Lasso vs sklearn.Lasso", f1, f2, 1e-7 * (1 + abs(f2)), dict(site="Lasso.fit", estimator="Lasso"), inp)
+        # a converged estimator is one that *reports* convergence, however it got there: the same model reached by
+        # warm-started refits along a short sequence of strengths must sit at the same reference optimum
+        ew = skglm.Lasso(alpha=a * rng.choice([3.0, 0.3]), fit_intercept=fi, positive=pos, tol=1e-10, max_iter=500,
+                         warm_start=True).fit(X, y)
+        for a_k in (a * rng.choice([2.0, 0.5]), a):
+            ew.set_params(alpha=a_k)
+            ew.fit(X, y)
+        f1w = lasso_obj(ew.coef_, ew.intercept_)
+        obj_gap(rep, "Lasso (warm-started refits) vs sklearn.Lasso", f1w, f2, 1e-7 * (1 + abs(f2)),
+                dict(site="Lasso.fit", estimator="Lasso", warm_start=True), inp)
         l1r = rng.choice([0.2, 0.5, 0.9])
         e = skglm.ElasticNet(alpha=a, l1_ratio=l1r, fit_intercept=fi, positive=pos, tol=1e-10, max_iter=500).fit(X, y)
         r_ = SL.ElasticNet(alpha=a, l1_ratio=l1r, fit_intercept=fi, positive=pos, tol=1e-14, max_iter=100000).fit(X, y)
